@@ -26,7 +26,7 @@ Judge(c, D) ==
      /\ \A p \in bad : PrintT(<<"FAIL", c.scn, p, res[p]>>)
      /\ (c.hasexp /\ Proj(c.exp) # Proj(c.h)) => PrintT(<<"DRIFT", c.scn>>)
 
-HitKeys == {"multiSubmitter", "multiRound", "beyondQueue", "overlapped", "nonPositive", "queueFull", "paced", "earlyClose"}
+HitKeys == {"multiSubmitter", "multiRound", "beyondQueue", "overlapped", "nonPositive", "queueFull", "paced", "earlyClose", "overlappingWaits"}
 Init == /\ i = 1
         /\ stats = [scenarios |-> 0, events |-> 0, hits |-> [k \in HitKeys |-> 0]]
 Next ==
